@@ -24,7 +24,7 @@ func c07modeCoq(m string) string {
 func (c *c07case) coq() (kind, term string) {
 	switch c.Kind {
 	case "args":
-		return "arg", fmt.Sprintf("(%d%%N, %s, (%s, %s, %s), %s, %s, %s, %s, %s, %s)", c.ID, c.Dir, coqBool(c.Defer), coqBool(c.Hold), coqBool(c.FuncV),
+		return "arg", fmt.Sprintf("(%d%%N, %s, (%s, %s), %s, %s, %s, %s, %s, %s)", c.ID, c.Dir, coqBool(c.Defer), coqBool(c.FuncV),
 			c07coqTypes(c.Sig.In), coqBool(c.Sig.Variadic), c07modeCoq(c.Mode), c07coqVals(c.Sent), c07coqVals(c.Impl), c07coqVals(c.Ref))
 	case "results":
 		p := c.CoqK
